@@ -375,7 +375,7 @@ def run_check(prop, a, bdir, seed, t0):
     sweep_failed = []
     if a.tier == "thorough":
         # bounded cross-check on the REAL code (never counted as proof): the unit's native small-universe sweep
-        for uname in units:
+        for uname in UNITS_OF[prop]:
             hook = replay.unit_hook(uname)
             if hook is not None and getattr(hook, "THOROUGH_SWEEP", False):
                 dev, detail = hook.native_sweep("thorough", bdir)
